@@ -32,7 +32,10 @@ def members : Nat → Bool → List Nat → Nat → List Nat → List Member →
     let inp1 := inp.drop 4
     if magic.isEmpty then .ok acc (total - inp1.length) n
     else if magic ≠ Consts.LZIP_MAGIC then
-      (if first then .err .invalidData else .ok acc (total - inp1.length) n)
+      (if first then .err .invalidData
+       -- the input ends inside the magic bytes of a further member (`LZIP_MAGIC.starts_with(&magic[..magic_len])`)
+       else if magic.isPrefixOf Consts.LZIP_MAGIC then .err .eof
+       else .ok acc (total - inp1.length) n)
     else
       match inp1 with
       | [] => .err .eof
